@@ -137,3 +137,41 @@ Theorem regenerated_withdrawal_is_the_models (W : list pyev -> pyev -> list pyev
   forall w ts keep, NoDup ts ->
   map ev_id (W (map (abs_ev w) ts) (abs_ev w keep)) = filter (fun t => negb (Nat.eqb t keep)) ts.
 Proof. intros H w ts keep ND. rewrite H by (rewrite map_abs_ids; exact ND). rewrite map_abs_ids. reflexivity. Qed.
+
+(* ------------------------------------------------------------------ the probe loop of the non-blocking paths (C09): the edge
+   chosen is the first out-edge whose can_put() is true; the item is pushed exactly when there is one and dropped otherwise; the
+   index-policy paths test can_put() of the drawn edge (a call, not the always-true bound method) *)
+Lemma Source_behaviour_probe_src l : Source_behaviour_probe l = find ed_can_put l.
+Proof. reflexivity. Qed.
+Lemma Source_behaviour_probe_pushes_src r : Source_behaviour_probe_pushes r = match r with Some _ => true | None => false end.
+Proof. reflexivity. Qed.
+Lemma Source_behaviour_index_probe_src e : Source_behaviour_index_probe e = ed_can_put e.
+Proof. reflexivity. Qed.
+Lemma Machine_worker_probe_src l : Machine_worker_probe l = find ed_can_put l.
+Proof. reflexivity. Qed.
+Lemma Machine_worker_probe_pushes_src r : Machine_worker_probe_pushes r = match r with Some _ => true | None => false end.
+Proof. reflexivity. Qed.
+Lemma Machine_worker_index_probe_src e : Machine_worker_index_probe e = ed_can_put e.
+Proof. reflexivity. Qed.
+Lemma Splitter_worker_probe_src l : Splitter_worker_probe l = find ed_can_put l.
+Proof. reflexivity. Qed.
+Lemma Splitter_worker_probe_pushes_src r : Splitter_worker_probe_pushes r = match r with Some _ => true | None => false end.
+Proof. reflexivity. Qed.
+Lemma Splitter_worker_index_probe_src e : Splitter_worker_index_probe e = ed_can_put e.
+Proof. reflexivity. Qed.
+Lemma Combiner_worker_probe_src l : Combiner_worker_probe l = find ed_can_put l.
+Proof. reflexivity. Qed.
+Lemma Combiner_worker_probe_pushes_src r : Combiner_worker_probe_pushes r = match r with Some _ => true | None => false end.
+Proof. reflexivity. Qed.
+Lemma Combiner_worker_index_probe_src e : Combiner_worker_index_probe e = ed_can_put e.
+Proof. reflexivity. Qed.
+
+Definition abs_edge (w : world) (e : nat) : pyedge := {| ed_id := e; ed_can_put := e_can_put w e |}.
+
+(* the model's search: the first out-edge whose probe says yes *)
+Theorem model_probe_is_first_with_room w es :
+  first_can_put w es = option_map ed_id (find ed_can_put (map (abs_edge w) es)).
+Proof.
+  unfold first_can_put. induction es as [|e r IH]; [reflexivity|]. cbn [map find abs_edge ed_can_put].
+  destruct (e_can_put w e); [reflexivity|]. exact IH.
+Qed.
